@@ -1,6 +1,6 @@
 (* Properties_C11.v — C11: mode switches leave the last requested mode in effect
    and respect capabilities. *)
-From TP Require Import Base Elem Term VT Oracle P_Sync P_Step P_Bytes P_Run P_Props Tie_Output.
+From TP Require Import Base Elem Term VT Oracle P_Sync P_Step P_Bytes P_Run P_Props Tie_Output Screen P_Canvas P_Screen.
 Local Open Scope N_scope.
 
 (* After any well-formed history from any initial terminal (modes unknown),
@@ -69,3 +69,21 @@ Proof.
   intros beh st want. unfold obytes. destruct want; cbn [step]; unfold show_hide; cbn [snd];
     destruct (ts_vis st) as [[|]|]; cbn [Bool.eqb negb render_all flat_map]; rewrite ?app_nil_r; reflexivity.
 Qed.
+
+(* a screen draw requests no mode: cursor visibility, mouse modes, buffer and
+   title stay as last requested (the draw may have been preceded by hide_cursor,
+   enable_mouse, ...) *)
+Theorem C11_draw_keeps_modes :
+  forall cfg beh, (b_unicode_all beh = true -> unicode_all cfg = true) ->
+  forall s st v c,
+    Sync beh st v -> ts_size st = (cw c, ch c) -> canvas_elems_wf c ->
+    (same_size s c = true -> Frame (last_frame s) v) ->
+    (wrap cfg <> Immediate \/
+     element_eqb (cv_get (prev_frame s c) (cw c - 1) (ch c - 1)) (cv_get c (cw c - 1) (ch c - 1)) = true) ->
+    let v' := vt_bytes cfg v (render_all (snd (draw beh s st c))) in
+    modes_of v' = modes_of v.
+Proof.
+  intros cfg beh Huni s st v c S Hsz Hwf Hf Hns v'.
+  destruct (draw_correct cfg beh Huni s st v c S Hsz Hwf Hf Hns) as (_ & _ & _ & _ & _ & H). exact H.
+Qed.
+Print Assumptions C11_draw_keeps_modes.
